@@ -1184,4 +1184,26 @@ theorem by_tables {e : Exports} {y : By} (h : e.by = .ok y) :
   cases h
   exact ⟨hf, hn, hi⟩
 
+/-- on ANY table (sorted or not) the binary search answers an entry only through a hint whose name
+equals the query -/
+theorem nameLoop_ok (y : By) (q : List Nat) (lower upper : Nat) (x : Export)
+    (h : y.nameLoop q lower upper = .ok x) :
+    ∃ hn, hn < y.names.cnt ∧ y.nameStr hn = .ok q ∧ y.hint hn = .ok x := by
+  fun_induction By.nameLoop y q lower upper with
+  | case1 lower => cases h
+  | case2 lower upper hne hlt => cases h
+  | case3 lower upper hne hlt i hi c hc s hqs ih => exact ih h
+  | case4 lower upper hne hlt i hi c hc s hqs hsq ih => exact ih h
+  | case5 lower upper hne hlt i hi c hc s hqs hsq hix =>
+    refine ⟨i, hi, ?_, ?_⟩
+    · rw [nameStr_of_derva hi hc]
+      exact congrArg Out.ok (List.le_antisymm (List.not_lt.1 hqs) (List.not_lt.1 hsq))
+    · unfold By.hint; rw [if_pos hix]; exact h
+  | case6 => cases h
+  | case7 lower upper hne hlt i hi e hc => cases h
+  | case8 lower upper hne hlt i hi s hc => cases h
+  | case9 lower upper hne hlt i hi s hc => cases h
+  | case10 lower upper hne hlt i hi hc => cases h
+  | case11 lower upper hne hlt i hi => cases h
+
 end Pelite.Exports
